@@ -34,6 +34,7 @@ type histProfile struct {
 	stateful  bool // use ids relative to the current radius / farthest item
 	bigValues bool // bias to values of 1-3 quanta so that prunes come quickly
 	reopenPct int
+	sparsePct int // percentage of histories with few, mostly huge items (a prune can then empty the store)
 }
 
 // genHistLen draws a value length. smallOnly keeps every item (key+value) at or
@@ -68,6 +69,29 @@ func genHist(t *rapid.T, pr histProfile) (histPlan, bool) {
 	unit := unitOf(p.CapMB)
 	smallOnly := !pr.bigValues && rapid.Bool().Draw(t, "smallOnly")
 	n := rapid.IntRange(1, pr.maxOps).Draw(t, "n")
+	sparse := pr.sparsePct > 0 && p.CapMB > 0 && rapid.IntRange(0, 99).Draw(t, "sparse") < pr.sparsePct
+	if sparse {
+		// few items, most of them a large part of the capacity: prunes that leave one item or none
+		n = rapid.IntRange(2, 12).Draw(t, "nsparse")
+		capB := int(p.CapMB) * 1_000_000
+		for i := 0; i < n; i++ {
+			if rapid.IntRange(0, 9).Draw(t, "sop") == 0 {
+				p.Ops = append(p.Ops, histOp{Op: "reopen"})
+				continue
+			}
+			l := rapid.SampledFrom([]int{0, 1000, unit * 2 / 5, unit - 32, unit, capB / 2, capB * 99 / 100, capB - 32, capB, capB + capB/10}).Draw(t, "slen")
+			ref := genRef(t, pr.stateful)
+			if rapid.IntRange(0, 9).Draw(t, "closer") < 7 {
+				// closer than everything put before it (byte-palindromic, so both readings of the key agree):
+				// the newcomer is the last item a pruning pass reaches
+				d := make([]byte, 32)
+				d[0], d[31] = byte(0xf0-8*i), byte(0xf0-8*i)
+				ref = idRef{Kind: "dist", Dist: d}
+			}
+			p.Ops = append(p.Ops, histOp{Op: "put", ID: ref, Len: l, Seed: rapid.Uint32().Draw(t, "seed")})
+		}
+		return p, false
+	}
 	for i := 0; i < n; i++ {
 		k := rapid.IntRange(0, 99).Draw(t, "op")
 		switch {
